@@ -83,7 +83,15 @@ def run(ids: list[str], all_props: bool, tier: str) -> None:
               + " ".join(f"{p}:{v['exit']}{'(nfi)' if v['violation'] and 'no-failing' in v['violation'] else ''}" for p, v in row.items()))
     # leave the generated tables in the state of the unchanged tree
     sh(["/venv/bin/python", str(VERIF / "harness" / "gen_tables.py")], cwd=VERIF / "harness")
-    (SEEDED / "RESULTS.json").write_text(json.dumps(results, indent=1))
+    out = SEEDED / "RESULTS.json"
+    merged = json.loads(out.read_text()) if out.exists() else {}
+    for k, v in results.items():
+        if k in merged and "detail" in merged[k] and "detail" in v:
+            merged[k]["detail"].update(v["detail"])
+            merged[k]["caught_by"] = sorted(p for p, x in merged[k]["detail"].items() if x["exit"] == 1)
+        else:
+            merged[k] = v
+    out.write_text(json.dumps(merged, indent=1))
 
 
 if __name__ == "__main__":
